@@ -213,7 +213,16 @@ def run_lattice(spec, tier, seed, res):
                         o = observe(out)
                         counted = [k1] + ([k2] if (k2 and not secondary) else [])
                         if secondary and k2 and (PRIO[k2] > PRIO[k1] or (k1 == "record" and k2 in ("awkward", "numpy"))):
-                            res.count("skip_secondary_axis_of_higher_priority")
+                            # the axis does not count: the result keeps the class family, flavor and dimension of the
+                            # rotated vector even when the axis comes from a higher-priority backend (the element-wise
+                            # results then live inside that class; a record rotated about an array becomes an array)
+                            res.count("secondary_axis_of_higher_priority_judged_on_type_only")
+                            want_d = dim
+                            ok_backend = o["vector"] and (o["backend"] == k1 or (k1 == "record" and o["backend"] == "awkward"))
+                            if not ok_backend or o["momentum"] != self_eff_m or o["dim"] != want_d:
+                                res.violation(f"C05/secondary-axis-decides-the-result-type op={op.name} pairing={k1}x{k2}",
+                                              {"cell": cell, "got": o, "expected": f"{k1} family, momentum={self_eff_m}, {want_d}D"})
+                            res.cell(cell, "pairing-secondary")
                             continue
                         want_b = expected_backend(counted)
                         if op.result == "vec":
